@@ -479,6 +479,13 @@ fn eval_select(s: &Select, env: &mut Env) -> Result<QResult, MErr> {
     // each output row together with the frame (or group) it came from, for ORDER BY expressions
     let mut out: Vec<(Row, Vec<V>)> = vec![];
     let order_exprs: Vec<&E> = s.order_by.iter().filter_map(|k| if let OrderKey::Expr(e, _) = k { Some(e) } else { None }).collect();
+    // an ORDER BY expression that is a select item (same text) or names a select alias is read from the output row
+    // (step 4) and must not be evaluated against the input frame, where an alias is not a column
+    let has_star_item = s.items.iter().any(|it| matches!(it, Item::Star));
+    let order_is_item: Vec<bool> = order_exprs
+        .iter()
+        .map(|e| !has_star_item && s.items.iter().any(|it| matches!(it, Item::Expr { e: ie, alias } if ie.sql() == e.sql() || alias.as_deref().map(|a| matches!(e, E::Col{tbl: None, name} if name.eq_ignore_ascii_case(a))).unwrap_or(false))))
+        .collect();
     if grouped {
         // groups keyed by group-by values (NULLs form one group); no GROUP BY => a single group (even if empty)
         let mut groups: Vec<(Vec<V>, Vec<Vec<Binding>>)> = vec![];
@@ -532,8 +539,8 @@ fn eval_select(s: &Select, env: &mut Env) -> Result<QResult, MErr> {
                     }
                 }
                 let mut ok = vec![];
-                for e in &order_exprs {
-                    ok.push(e.eval(env)?);
+                for (e, is_item) in order_exprs.iter().zip(order_is_item.iter()) {
+                    ok.push(if *is_item { V::Null } else { e.eval(env)? });
                 }
                 Ok(Some((row, ok)))
             })();
@@ -559,8 +566,8 @@ fn eval_select(s: &Select, env: &mut Env) -> Result<QResult, MErr> {
                     }
                 }
                 let mut ok = vec![];
-                for e in &order_exprs {
-                    ok.push(e.eval(env)?);
+                for (e, is_item) in order_exprs.iter().zip(order_is_item.iter()) {
+                    ok.push(if *is_item { V::Null } else { e.eval(env)? });
                 }
                 Ok((row, ok))
             })();
